@@ -52,6 +52,7 @@ type pendingCommit struct {
 	opIdx         int
 	readTs        uint64
 	conflictBound uint64
+	conflictIdx   int // managed mode: number of commits the oracle had seen when it reported the conflict
 	batch         bool
 	recs          []*CommitRec
 }
@@ -285,6 +286,9 @@ func (r *Run) onEvent(gid int64, kind string, a, b uint64, key, val []byte) {
 		r.mu.Unlock()
 		if cl != nil && cl.cur != nil {
 			cl.cur.conflictBound = a
+			r.mu.Lock()
+			cl.cur.conflictIdx = len(r.model.Commits)
+			r.mu.Unlock()
 		}
 	case "commitFailed":
 		r.mu.Lock()
@@ -819,6 +823,33 @@ func (r *Run) opCommit(cl *clientState, idx int, op *Op) {
 		}
 		return ""
 	}
+	// managed mode: the oracle compares with every commit it accepted earlier whose
+	// (caller-chosen) timestamp is above our read timestamp. Defined only while the
+	// discard timestamp has not been raised above our read timestamp.
+	managedWitness := func(before int) (string, bool) {
+		if !(ts.rw && len(pc.writes) > 0 && r.c.Cfg.DetectConflicts && r.c.Cfg.Managed) {
+			return "", false
+		}
+		r.mu.Lock()
+		defer r.mu.Unlock()
+		if r.discardTs > ts.readTs {
+			return "", false
+		}
+		for i, c := range r.model.Commits {
+			if i >= before {
+				break
+			}
+			if c.Ts <= ts.readTs {
+				continue
+			}
+			for _, w := range c.Writes {
+				if ts.reads[w.Key] {
+					return fmt.Sprintf("commit ts=%d wrote %q", c.Ts, w.Key), true
+				}
+			}
+		}
+		return "", true
+	}
 	finish := func(err error) {
 		acked := err == nil
 		r.logf("c%d %s s%d -> err=%v ts=%v", cl.id, op.K, op.S, err, tsOf(pc))
@@ -834,6 +865,9 @@ func (r *Run) opCommit(cl *clientState, idx int, op *Op) {
 			if pc.rec != nil {
 				r.violate([]string{"C02", "C03"}, "conflict-after-ts", "c%d got ErrConflict but a commit ts %d was allocated", cl.id, pc.rec.Ts)
 			}
+			if w, ok := managedWitness(pc.conflictIdx); ok && w == "" {
+				r.violate([]string{"C02"}, "spurious-conflict", "c%d (managed, readTs=%d, reads=%v) got ErrConflict but none of the %d earlier commits with ts > %d wrote a key it read", cl.id, ts.readTs, keysOf(ts.reads), pc.conflictIdx, ts.readTs)
+			}
 			if !r.c.Cfg.Managed && witnessBelow(pc.conflictBound) == "" {
 				r.violate([]string{"C02"}, "spurious-conflict", "c%d (readTs=%d, reads=%v) got ErrConflict but no commit with ts in (%d,%d) wrote a key it read", cl.id, ts.readTs, keysOf(ts.reads), ts.readTs, pc.conflictBound)
 			}
@@ -844,6 +878,12 @@ func (r *Run) opCommit(cl *clientState, idx int, op *Op) {
 			}
 			if d := diffWrites(pc.writes, pc.rec.Writes); d != "" {
 				r.violate([]string{"C03", "C06"}, "commit-entries-differ", "c%d commit ts=%d: the entries handed to the write path differ from what the transaction set: %s", cl.id, pc.rec.Ts, d)
+			}
+			if w, ok := managedWitness(pc.rec.ID); ok && w != "" {
+				r.probe("managed_conflict_checked")
+				r.violate([]string{"C02"}, "missed-conflict", "c%d (managed, readTs=%d, commitTs=%d, reads=%v) committed although %s earlier and above its read timestamp (discardTs=%d)", cl.id, ts.readTs, pc.rec.Ts, keysOf(ts.reads), w, r.discardTs)
+			} else if ok {
+				r.probe("managed_conflict_checked")
 			}
 			if witness := witnessBelow(pc.rec.Ts); witness != "" {
 				r.violate([]string{"C02"}, "missed-conflict", "c%d (readTs=%d, commitTs=%d, reads=%v) committed although %s after its read timestamp", cl.id, ts.readTs, pc.rec.Ts, keysOf(ts.reads), witness)
